@@ -138,9 +138,16 @@ Print Assumptions C06_guard_injective_full.
 
 (* generation completes (stropping part): on every non-empty token and every legal id type the stropper returns a token -- the
    model's sid_of never takes its dead arm; C09's totality theorem, imported.  All id types the sites pass are legal. *)
-Theorem C06_stropping_total : forall l (ty s : str), s <> [] -> str_eqb (lower ty) ty_all = false -> strop_lang l ty s = Ok (sid_of l ty s).
+Theorem C06_stropping_total : forall l (ty s : str),
+  cpp_whole_token_premise -> s <> [] -> str_eqb (lower ty) ty_all = false -> strop_lang l ty s = Ok (sid_of l ty s).
 Proof. exact sid_of_ok. Qed.
 Print Assumptions C06_stropping_total.
+
+(* for C and Python without C09's explicit premise (which concerns the C++ whole-token re-check only) *)
+Theorem C06_stropping_total_c_py : forall l (ty s : str),
+  l <> LCpp -> s <> [] -> str_eqb (lower ty) ty_all = false -> strop_lang l ty s = Ok (sid_of l ty s).
+Proof. exact sid_of_ok_c_py. Qed.
+Print Assumptions C06_stropping_total_c_py.
 
 Theorem C06_id_types_legal :
   forallb (fun ty => negb (str_eqb (lower ty) ty_all))
